@@ -1,5 +1,76 @@
+/-
+C05 — Three-way merge keeps all non-conflicting changes, never silently alters data.
+Property theorems only. Model: Model/Merge.lean (mergeTables, Resolve/tryResolve with the literal
+per-column decision chain, RowCollector). Spec: Spec/Merge.lean (`mergeKey`, `mergeSpec`).
+Proved for tables with the same column list (any key position, composite or absent key, any number
+of branches); column-changing branches are `_partial`: see DESIGN.md. Two known findings concern the
+layout of untouched rows when the key is not first and keyless merges.
+-/
 import WrglModel.Model.Merge
 import WrglModel.Spec.Merge
+import WrglModel.Lemmas.C05
 namespace Wrgl
-theorem C05_placeholder : True := trivial
+
+/-- The decision chain of `tryResolve` on one column IS the three-way rule: unresolved iff two
+    different changed values occur; otherwise the changed value if there is one, else the base value. -/
+theorem C05_resolveCell_spec (bc : Option Bytes) (xs : List Bytes) :
+    let st := xs.foldl (fun st x => cellStep bc false false x st)
+      { add := none, mod := none, rem := false, val := bc.getD [], unresolved := false }
+    (st.unresolved = true ↔ (changedVals bc xs).length ≥ 2) ∧
+    (st.unresolved = false → st.val = (changedVals bc xs).headD (bc.getD [])) :=
+  cellFold_spec bc xs
+
+/-- The pipeline as implemented (equal column lists, unique keys, any number of branches) reports
+    exactly the specified conflicts and produces exactly the specified rows: for every key and
+    column the value changed by some branch if exactly one distinct change was made, the base value
+    if none was, a reported conflict otherwise; untouched rows unchanged. -/
+theorem C05_model_meets_spec_partial (sortFn : List Row → List Row) (pk : List Nat) (hs : IsSort pk sortFn)
+    (nCols : Nat) (base : List Row) (branches : List (List Row))
+    (hb : TableOK nCols pk base) (hbr : ∀ t ∈ branches, TableOK nCols pk t) :
+    (mergeTablesModel sortFn nCols pk base branches).conflicts.map (·.1) =
+      (mergeSpec sortFn nCols pk base branches).conflictKeys ∧
+    (mergeTablesModel sortFn nCols pk base branches).rows = (mergeSpec sortFn nCols pk base branches).rows :=
+  merge_model_meets_spec sortFn pk hs nCols base branches hb hbr
+
+/-- merge(base; X, base) = X = merge(base; base, X), without conflict -/
+theorem C05_identity (sortFn : List Row → List Row) (pk : List Nat) (hs : IsSort pk sortFn)
+    (nCols : Nat) (base x : List Row) (hb : TableOK nCols pk base) (hx : TableOK nCols pk x) :
+    (mergeSpec sortFn nCols pk base [x, base]).conflictKeys = [] ∧
+    (mergeSpec sortFn nCols pk base [x, base]).rows.Perm x ∧
+    (mergeSpec sortFn nCols pk base [base, x]).conflictKeys = [] ∧
+    (mergeSpec sortFn nCols pk base [base, x]).rows.Perm x :=
+  mergeSpec_identity sortFn pk hs nCols base x hb hx
+
+/-- merge(base; X, X) = X, without conflict -/
+theorem C05_idempotent (sortFn : List Row → List Row) (pk : List Nat) (hs : IsSort pk sortFn)
+    (nCols : Nat) (base x : List Row) (hb : TableOK nCols pk base) (hx : TableOK nCols pk x) :
+    (mergeSpec sortFn nCols pk base [x, x]).conflictKeys = [] ∧
+    (mergeSpec sortFn nCols pk base [x, x]).rows.Perm x :=
+  mergeSpec_idempotent sortFn pk hs nCols base x hb hx
+
+/-- The outcome for a key does not depend on the order in which the branches are listed. -/
+theorem C05_order_independent (nCols : Nat) (b : Option Row) (xs ys : List (Option Row)) (h : xs.Perm ys) :
+    mergeKey nCols b xs = mergeKey nCols b ys :=
+  mergeKey_perm nCols b xs ys h
+
+/-- Different edits of one cell, or a removal against a modification, are reported as conflicts —
+    never a silent pick. -/
+theorem C05_conflict_reported (nCols : Nat) (br x y : Row) (i : Nat)
+    (hl : br.length = nCols ∧ x.length = nCols ∧ y.length = nCols) (hi : i < nCols)
+    (hx : x[i]? ≠ br[i]?) (hy : y[i]? ≠ br[i]?) (hxy : x[i]? ≠ y[i]?) :
+    mergeKey nCols (some br) [some x, some y] = .conflict ∧
+    mergeKey nCols (some br) [none, some x] = .conflict :=
+  mergeKey_conflict_reported nCols br x y i hl hi hx hy hxy
+
+/-- A key that only one branch changed takes that branch's row (disjoint edits combine). -/
+theorem C05_disjoint_no_conflict (nCols : Nat) (br x : Row) (hl : br.length = nCols ∧ x.length = nCols) (n m : Nat) :
+    mergeKey nCols (some br) (List.replicate n (some br) ++ [some x] ++ List.replicate m (some br)) = .row x :=
+  mergeKey_single_change nCols br x hl n m
+
+/-- non-vacuity -/
+example : TableOK 2 [0] [[[1], [2]], [[3], [4]]] := by
+  constructor
+  · intro r hr; simp at hr; rcases hr with rfl | rfl <;> rfl
+  · simp [keyOf]
+
 end Wrgl
